@@ -1817,6 +1817,19 @@ func (db *DB) verifyWithExecutor(ctx context.Context, exec *syncExecutor) (info 
 			info.reason = "wal restarted while not being observed, snapshotting"
 			return info, nil
 		}
+
+		// A frame of the previous generation at our position means the application
+		// wrote it before restarting the WAL and we never copied it (it has been
+		// checkpointed into the database, so it exists nowhere else).
+		cursor := prevWALOffset + frameSize
+		if hdr, err := readWALFileAt(db.WALPath(), cursor, WALFrameHeaderSize); err == nil &&
+			binary.BigEndian.Uint32(hdr[8:]) == dec.Header().WALSalt1 &&
+			binary.BigEndian.Uint32(hdr[12:]) == dec.Header().WALSalt2 {
+			info.offset = WALHeaderSize
+			info.salt1, info.salt2 = salt1, salt2
+			info.reason = "uncopied frames of the previous wal generation, snapshotting"
+			return info, nil
+		}
 		db.Logger.Log(ctx, internal.LevelTrace, "wal restarted",
 			"salt1", salt1,
 			"salt2", salt2)
